@@ -3,6 +3,7 @@
 Oracle: recomputation from the written files (size, MD5, decoded row count) and from the written
 datapackage.json; process() stats vs the written descriptor; second dump gives identical hashes."""
 import copy
+import os
 import json
 
 from hypothesis import strategies as st
@@ -106,7 +107,16 @@ def check(case, ctx):
         'counters:' + ('default' if not opts.get('counters') else 'custom')]
     try:
         loc1, stats1 = dump_once(case, ctx, over_existing=bool(case.get('over_existing')))
-        loc2, stats2 = dump_once(case, ctx)
+        cwd = os.getcwd()
+        try:
+            if opts['dumper'] == 'path' and opts['add_filehash_to_path'] and os.path.isdir(loc1):
+                # the second dump runs with the FIRST dump's directory as working directory: the same relative (hashed)
+                # paths exist there, but the files have to be written under the second target all the same
+                os.chdir(loc1)
+                classes.append('working-directory-holds-the-same-relative-paths')
+            loc2, stats2 = dump_once(case, ctx)
+        finally:
+            os.chdir(cwd)
         if case.get('over_existing'):
             classes.append('over-an-older-dump-of-equal-size')
     except Exception as e:
